@@ -285,6 +285,21 @@ Proof.
   apply (Hno q H1). destruct HR as ((_ & Hm & _) & _ & _ & Ht & _). rewrite Ht. apply (Hm _ _ Eq).
 Qed.
 
+
+(* growth preserves the entries: a reservation (the only operation of the
+   discipline that reallocates outside the synchronisation) changes no lookup,
+   at any point of any history *)
+Theorem growth_preserves_entries : forall n h r p s i, wf n (h ++ [At r (Reserve p)]) = true ->
+  nth_error (fst (sys_run (sys_init n) h)) r = Some s -> 1 <= i ->
+  lookup (fst (step s (Reserve p))) i = lookup s i.
+Proof.
+  intros n h r p s i Hwf Hs Hi. unfold wf in Hwf. rewrite wf_run_app in Hwf.
+  apply andb_true_iff in Hwf. destruct Hwf as [Hwf1 Hwf2]. pose proof (final_R n h Hwf1) as HF.
+  destruct (Forall2_nth_l _ _ _ _ _ HF Hs) as (a & Ha & HR).
+  cbn [wf_run ok_event] in Hwf2. rewrite Ha in Hwf2. apply andb_true_iff in Hwf2.
+  eapply reserve_preserves_lookups; eauto. apply Hwf2.
+Qed.
+
 (* ---------------------------------------------------------------------- *)
 (* identifiers handed out to one process are strictly increasing, whatever the
    callers do (no discipline needed beyond: the synchronisation is the collective) *)
